@@ -21,3 +21,6 @@ import TLX.Props.Translated.KeySched
 import TLX.Props.Translated.Builders
 import TLX.Props.Translated.Decrypt
 import TLX.Props.Translated.QuicTls
+import TLX.Props.Translated.QuicSess2
+import TLX.Props.Translated.Main2
+import TLX.Props.Translated.Keylog
